@@ -295,6 +295,50 @@ def run(ctx):
         ctx.check(good, "R8.1", "RecordContextMatcher._eval:Attribute:return",
                   f"returns {norm(r.value)} instead of getattr(obj, node.attr, {sent_name})", r, norm(r.value))
 
+    # ------------------------------------------------------------------ R8.6 attribute hooks of record classes
+    ctx.rule("R8.6", "getattr(record, name, SENTINEL) substitutes the sentinel only for AttributeError: every __getattr__ of a record class raises nothing else "
+                     "for an unknown name (explicit raises are AttributeError; a mapping is indexed with the name only under an `in` test or a KeyError handler)")
+    basem = prog.module("flow.record.base")
+    rec_cls = prog.cls("flow.record.base.Record")
+    hooks = []
+    for c in [rec_cls] + prog.subclasses(rec_cls):
+        fnh = prog.methods_of(c).get("__getattr__")
+        if fnh is not None:
+            hooks.append((c, fnh))
+    ctx.floor("R8.6", "__getattr__ hooks on record classes", len(hooks), 1)
+    for c, fnh in hooks:
+        ctx.use(c._module)
+        hname = func_params(fnh)[1]
+        hcfg = CFG(fnh)
+        q = qualname_of(fnh).replace("flow.record.", "")
+        for rz in [n for n in walk_no_nested(fnh) if isinstance(n, ast.Raise)]:
+            if rz.exc is None:
+                continue
+            ex = rz.exc.func if isinstance(rz.exc, ast.Call) else rz.exc
+            r_ = prog.resolve_expr(c._module, ex)
+            okr = isinstance(r_, Ref) and r_.name in ("builtins.AttributeError", "AttributeError")
+            ctx.check(okr, "R8.6", f"{q}:raise {norm(ex)}", f"an unknown attribute raises {norm(ex)}, which getattr(record, name, default) does not turn into the default: "
+                      "a selector on a field the record lacks raises instead of not matching", rz, "raises AttributeError", key=f"R8.6:{q}:raises:{norm(ex)}")
+        for sub in [n for n in ast.walk(fnh) if isinstance(n, ast.Subscript) and isinstance(n.ctx, ast.Load) and hname in {x.id for x in ast.walk(n.slice) if isinstance(x, ast.Name)}]:
+            nd = hcfg.header_node_for_expr(sub) or hcfg.node_of(sub)
+            from .. import logic as _lg
+
+            guarded = _lg.implies(_lg.facts_as_premises(hcfg.facts_at(nd.id)), ast.Compare(left=sub.slice, ops=[ast.In()], comparators=[sub.value]))
+            tr = getattr(sub, "_parent", None)
+            handled = False
+            child = sub
+            while tr is not None and tr is not fnh:
+                if isinstance(tr, ast.Try) and any(child is b for b in tr.body):
+                    for h in tr.handlers:
+                        names = [norm(x) for x in (h.type.elts if isinstance(h.type, ast.Tuple) else [h.type])] if h.type is not None else ["BaseException"]
+                        if any(nm in ("KeyError", "LookupError", "Exception", "BaseException") for nm in names):
+                            handled = True
+                child = tr
+                tr = getattr(tr, "_parent", None)
+            ctx.check(guarded or handled, "R8.6", f"{q}:index {norm(sub)[:40]}", f"`{norm(sub)}` raises KeyError for an unknown name (no `in` test, no KeyError handler): "
+                      "getattr(record, name, default) lets it through, so a selector on a field this record lacks raises instead of not matching", sub,
+                      "indexed only for known names", key=f"R8.6:{q}:unguarded-index")
+
     # ------------------------------------------------------------------ R8.2
     ctx.rule("R8.2", "the sentinel class defines __eq__ __ne__ __lt__ __le__ __gt__ __ge__ __contains__ and every return "
                      "in them is the constant False")
@@ -462,4 +506,26 @@ def run(ctx):
             ctx.check(not bad, "R8.5", f"{fn.name}:skip-missing",
                       f"{var} is used at line {bad[0].lineno if bad else 0} on a path that a missing field (the sentinel) can take: the field is not skipped", bad[0] if bad else rd,
                       f"none of the {len(uses)} uses of {var} is reachable when it holds {sent_name}", key=f"R8.5:{fn.name}:missing-field-not-skipped")
+            # ... and a missing field skips only THAT field: under the sentinel, control comes back to the loop header (next field) -
+            # it neither leaves the loop nor returns
+            header = fcfg.node_of(loop)
+            feas2 = feasible_nodes(ev, fcfg, fn, rd_node.id, {var: "FOREIGN"}, stop_at=lambda nd, h=header.id: nd.id == h)
+            leaves = []
+            for nid in feas2:
+                nd = fcfg.nodes[nid]
+                if nid in (header.id, rd_node.id):
+                    continue
+                inside = False
+                q = nd.ast
+                while q is not None:
+                    if q is loop:
+                        inside = True
+                        break
+                    q = getattr(q, "_parent", None)
+                if not inside or isinstance(nd.ast, ast.Return) or nid in (fcfg.exit,):
+                    leaves.append(nd)
+            ctx.check(not leaves, "R8.5", f"{fn.name}:missing-field-skips-one", f"when `{var}` is the sentinel, control leaves the loop over the field names "
+                      f"({'return' if any(isinstance(n.ast, ast.Return) for n in leaves) else 'break / fall out'}): the remaining fields are never tested, so a record lacking the FIRST "
+                      "listed field cannot match on a later one", leaves[0].ast if leaves and leaves[0].ast is not None else rd,
+                      "a missing field continues with the next field", key=f"R8.5:{fn.name}:missing-field-ends-loop")
     ctx.floor("R8.5", "helper functions looping over field names", looping, 3)
